@@ -406,7 +406,7 @@ func famPfScope(o *Out, r *RNG, thorough bool) {
 			}
 		}
 		for _, depth := range []string{"", "0", "1"} {
-			for _, form := range []string{"allprop", "prop", "noform"} {
+			for _, form := range []string{"allprop", "prop", "noform", "propname", "empty"} {
 				emitScope(o, "principal", h, "principal", h.principal, depth, form)
 			}
 		}
